@@ -98,12 +98,7 @@ func (m *writeMonitor) freeze(v value, root string, seen map[interface{}]bool) {
 			m.freeze(e.value, root, seen)
 		}
 	case *closure:
-		if x == nil {
-			return
-		}
-		for _, e := range x.Env {
-			m.freeze(e, root, seen)
-		}
+		// a host function's own captured state is not caller data
 	case tuple:
 		for _, e := range x {
 			m.freeze(e, root, seen)
